@@ -6,6 +6,8 @@ Behaviour-preserving spellings are collapsed so that rules need to know one form
   x = x + e    -> x += e          x = x - e    -> x -= e      (simple names)
   if not c: A else: B  ->  if c: B else: A       (both branches present, no elif chain on the swapped side)
   `pass` dropped from bodies that have other statements
+  while True: if c: break; <body>  ->  while not c: <body>
+  t = <expr>; return t  ->  return <expr>        (t bound once and read once in the function)
 Positions (lineno / col_offset) of the original nodes are kept.
 """
 import ast
@@ -77,6 +79,12 @@ class Normalizer(ast.NodeTransformer):
         self.generic_visit(node)
         node.test = self._strip_double_not(node.test)
         node.body = self._clean_body(node.body)
+        # `while True: if c: break; body`  ->  `while not c: body`   (no else clause on either)
+        if isinstance(node.test, ast.Constant) and node.test.value is True and not node.orelse and len(node.body) >= 2:
+            first = node.body[0]
+            if isinstance(first, ast.If) and not first.orelse and len(first.body) == 1 and isinstance(first.body[0], ast.Break):
+                node.test = negate(first.test)
+                node.body = node.body[1:]
         return node
 
     def visit_For(self, node):
@@ -87,7 +95,57 @@ class Normalizer(ast.NodeTransformer):
     def visit_FunctionDef(self, node):
         self.generic_visit(node)
         node.body = self._clean_body(node.body)
+        self._inline_return_temps(node)
         return node
+
+    def _inline_return_temps(self, fn):
+        """`t = <expr>; return t` -> `return <expr>` when t is bound once and read once in the function"""
+        stores, loads = {}, {}
+        for n in ast.walk(fn):
+            if isinstance(n, ast.Name):
+                d = stores if isinstance(n.ctx, (ast.Store, ast.Del)) else loads
+                d[n.id] = d.get(n.id, 0) + 1
+        params = {a.arg for a in fn.args.posonlyargs + fn.args.args + fn.args.kwonlyargs}
+        # loads of a name that are exactly `return <name>` right after `<name> = ...`
+        paired = {}
+
+        def count_pairs(body):
+            for i in range(len(body) - 1):
+                a, b = body[i], body[i + 1]
+                if isinstance(a, ast.Assign) and len(a.targets) == 1 and isinstance(a.targets[0], ast.Name) and isinstance(b, ast.Return) \
+                        and isinstance(b.value, ast.Name) and b.value.id == a.targets[0].id:
+                    paired[a.targets[0].id] = paired.get(a.targets[0].id, 0) + 1
+            for st in body:
+                if isinstance(st, (ast.FunctionDef, ast.AsyncFunctionDef, ast.ClassDef)):
+                    continue
+                for field in ('body', 'orelse', 'finalbody'):
+                    sub_ = getattr(st, field, None)
+                    if isinstance(sub_, list):
+                        count_pairs(sub_)
+                for h in getattr(st, 'handlers', []) or []:
+                    count_pairs(h.body)
+        count_pairs(fn.body)
+
+        def fix(body):
+            i = 0
+            while i + 1 < len(body):
+                a, b = body[i], body[i + 1]
+                if isinstance(a, ast.Assign) and len(a.targets) == 1 and isinstance(a.targets[0], ast.Name) and isinstance(b, ast.Return) \
+                        and isinstance(b.value, ast.Name) and b.value.id == a.targets[0].id and a.targets[0].id not in params \
+                        and loads.get(a.targets[0].id) == paired.get(a.targets[0].id) == stores.get(a.targets[0].id):
+                    new = ast.Return(value=a.value)
+                    ast.copy_location(new, b)
+                    body[i:i + 2] = [new]
+                    continue
+                i += 1
+            for st in body:
+                for field in ('body', 'orelse', 'finalbody'):
+                    sub_ = getattr(st, field, None)
+                    if isinstance(sub_, list) and not isinstance(st, (ast.FunctionDef, ast.AsyncFunctionDef, ast.ClassDef)):
+                        fix(sub_)
+                for h in getattr(st, 'handlers', []) or []:
+                    fix(h.body)
+        fix(fn.body)
 
     visit_AsyncFunctionDef = visit_FunctionDef
 
